@@ -75,6 +75,8 @@ class Judge:
         self.theory = theory
         self.viol = []            # (signature, detail dict)
         self.conj = {}            # ctr var -> list of conjunct literals (from the E4 clauses of sat_core::new_conj)
+        self.rel_lits = {}        # constraint var -> (relation on x_a - x_b, a, b, m): the literal stands for  x_a - x_b  rel  m
+        self.n_rel_network_checks = 0
         self.level = 0
         self.rng = sample_rng
         self.n_state_checks = 0
@@ -308,6 +310,8 @@ class Judge:
         exp = self.expected_constraints(rel, a, b, c, k)
         self.judge_rel_result(what + (":1var" if b == 0 and len(expr[0]) == 1 else ":2var") + (":neg" if c < 0 else ":pos"),
                               exp, res, st_before, st_after, idx, " ".join(tk))
+        if exp != "throw" and res.startswith("lit "):
+            self.remember_relation(rel, a, b, c, k, parse_lits(res[4:])[0], st_after)
         # the same on sample points: the relation between the two sides holds iff the constraints hold
         if exp != "throw" and self.rng is not None:
             for _ in range(6):
@@ -318,6 +322,76 @@ class Judge:
                 sat = all((x[t] - x[f], Fraction(0)) <= bd for f, t, bd in exp)
                 if truth != sat:
                     self.report(what + ":spec-self-check", at=idx, input=" ".join(tk), point={str(k2): str(v2) for k2, v2 in x.items()})
+
+    # ---------------------------------------------------------------------------------------- assigned relation literals
+    FLIP = {"lt": "gt", "leq": "geq", "eq": "eq", "geq": "leq", "gt": "lt"}
+    NEG = {"lt": "geq", "leq": "gt", "geq": "lt", "gt": "leq"}
+
+    def rel_edge(self, rel, a, b, m):
+        """the difference constraint (from, to, bound) of  x_a - x_b  rel  m, from the semantics of the relation alone"""
+        mm = (m, Fraction(0))
+        u = unit(self.theory)
+        return {"leq": (b, a, mm), "lt": (b, a, d_sub(mm, u)), "geq": (a, b, d_neg(mm)), "gt": (a, b, d_sub(d_neg(mm), u))}[rel]
+
+    def remember_relation(self, rel, a, b, c, k, l, st):
+        m = -k / c
+        eff = self.FLIP[rel] if c < 0 else rel
+        v, sg = l
+        if not sg or v == 0:
+            return
+        parts = [("leq", self.rel_edge("leq", a, b, m)), ("geq", self.rel_edge("geq", a, b, m))] if eff == "eq" else [(eff, self.rel_edge(eff, a, b, m))]
+        cands = [v] + [x[0] for x in self.conj.get(v, []) if x[1]]
+        for w in cands:
+            if w in st.V:
+                for r2, e2 in parts:
+                    if st.V[w] == e2:
+                        self.rel_lits[w] = (r2, a, b, m)
+
+    def semantic_edge(self, st, v, positive):
+        """edge contributed by constraint variable v under the given polarity: for a relation literal from the exact meaning of the
+        relation / of its negation (x < k false means x >= k), otherwise from the registered constraint"""
+        if v in self.rel_lits:
+            r2, a, b, m = self.rel_lits[v]
+            return self.rel_edge(r2 if positive else self.NEG[r2], a, b, m)
+        f, t, d = st.V[v]
+        return (f, t, d) if positive else (t, f, d_pred(self.theory, d))
+
+    def judge_rel_network(self, st, idx):
+        """C12: with relation literals assigned (either polarity), the network is the closure of the EXACT meaning of those
+        assignments: the bound pushed for a false literal is the exact negation (closed/open end), nothing more, nothing less"""
+        involved = [v for v in self.rel_lits if v in st.V and st.value(v) != "U"]
+        if not involved:
+            return
+        self.n_rel_network_checks += 1
+        edges = [self.semantic_edge(st, v, st.value(v) == "T") for v in st.V if st.value(v) != "U"]
+        fw, neg = floyd(st.n, edges)
+        desc = {str(v): "x%d - x%d %s %s is %s" % (self.rel_lits[v][1], self.rel_lits[v][2], self.rel_lits[v][0], self.rel_lits[v][3],
+                                                    "true" if st.value(v) == "T" else "false") for v in involved}
+        if neg:
+            self.report("relation-literal:missed-conflict", at=idx, assigned=desc,
+                        why="the exact meaning of the assigned relation literals is unsatisfiable, no conflict was reported")
+            return
+        for i in range(st.n):
+            for j in range(st.n):
+                got, exp = st.D[i][j], fw[i][j]
+                if (exp[0] == math.inf and got[0] == math.inf) or got == exp:
+                    continue
+                self.report("relation-literal:network-bound", at=idx, assigned=desc, cell=[i, j], got=st.rawD[i][j],
+                            expected="+inf" if exp[0] == math.inf else [str(exp[0]), str(exp[1])],
+                            why="x%d - x%d <= this bound is what the network enforces; the exact meaning of the assigned relation literals gives another bound" % (j, i))
+                return
+
+    def judge_rel_conflict(self, clause, st, idx):
+        if not any(l[0] in self.rel_lits for l in clause):
+            return
+        edges = []
+        for l in clause:
+            if l[0] not in st.V:
+                return
+            edges.append(self.semantic_edge(st, l[0], not l[1]))
+        if not has_negative_cycle(edges):
+            self.report("relation-literal:conflict-although-satisfiable", at=idx, clause=clause,
+                        why="the exact meaning of the literals the conflict blames is satisfiable")
 
     def judge_newdist(self, tk, res, st_before, st_after, idx):
         f, t = int(tk[1]), int(tk[2])
@@ -436,6 +510,8 @@ class Judge:
                         self.conj.setdefault(cl[0][0], []).append(cl[1])
                     if kind in (2, 3):
                         self.judge_clause(kind, cl, st, idx, check_assigned=not tk[0].startswith("s"))
+                    if kind == 3:
+                        self.judge_rel_conflict(cl, st, idx)
                 if r.startswith("prop false"):
                     conflicted = True
             c = tk[0]
@@ -450,7 +526,7 @@ class Judge:
                 if steps[0][0].startswith("false") and self.level == 0:
                     return      # the network is inconsistent at root level: end of the history
             level = len(st.T) - 1
-            if c in ("rel",) and prev is not None and level == 0:
+            if c in ("rel",) and prev is not None and not conflicted and not prev.Q:
                 self.judge_rel(tk, steps[0][0], prev, st, idx)
             elif c in ("newdist", "newdist2") and prev is not None and level == 0:
                 self.judge_newdist(tk, steps[0][0], prev, st, idx)
@@ -461,4 +537,5 @@ class Judge:
                 pending = c == "push"
                 if not pending:
                     self.judge_state(st, idx)
+                    self.judge_rel_network(st, idx)
             prev = st
